@@ -91,7 +91,66 @@ func childC05(args []string) int {
 	run, finish := childRun("C05", "fault_enumeration")
 	c05Loss(run)
 	c05Interleave(run)
+	c05Tokens(run)
 	return finish()
+}
+
+// c05Tokens watches the write identities (the 16 bytes every chunk of one set starts with) of
+// thousands of consecutive sets. Two sets carrying the same identity are indistinguishable to a
+// reader; if that happens, the distance between them is used to construct the interleaving of
+// two sets (with that many unrelated sets in between) whose read returns a patched value.
+func c05Tokens(run *evid.Run) {
+	announceCase("token sequence")
+	st := fakemc.NewStore("L1")
+	h := chunked.NewHandler(st.Pipe())
+	defer h.Close()
+	n := run.Pick(3000, 40000)
+	seen := map[string]int{}
+	dupI, dupJ := -1, -1
+	for i := 0; i < n; i++ {
+		st.ResetLog()
+		handlerExec(h, wire.Cmd{Op: "set", Key: fmt.Sprintf("tok%d", i%13), Value: []byte("0123456789")}, 0)
+		for _, rq := range st.Log() {
+			if rq.Op == fakemc.OpSet && strings.HasSuffix(rq.Key, "-0") && len(rq.ValHead) >= 16 {
+				tok := string(rq.ValHead[:16])
+				if j, ok := seen[tok]; ok && dupI < 0 {
+					dupI, dupJ = j, i
+				}
+				seen[tok] = i
+			}
+		}
+		if i%1000 == 999 {
+			st.EvictAll()
+		}
+	}
+	run.Eval(1)
+	run.Count("write_identities_observed", int64(len(seen)))
+	run.Distinct("tokens|sequence")
+	if dupI < 0 {
+		return
+	}
+	d := dupJ - dupI
+	w := map[string]interface{}{"set_index_a": dupI, "set_index_b": dupJ, "distance": d}
+	// construct the torn read
+	prog := c05Program{NA: 2, NB: 2, Pre: -1, Fillers: d - 1}
+	ex := sched.NewDFS(-1, 4000)
+	for {
+		ch := ex.Next()
+		if ch == nil {
+			break
+		}
+		bad, witness, err := c05RunSchedule(prog, ch)
+		ch.Done()
+		run.Count("schedules_executed", 1)
+		if err == nil && bad != "" {
+			witness["schedule"] = ch.Trace
+			witness["program"] = prog
+			witness["identical_write_identities"] = w
+			run.Violation("chunked|interleave|two sets "+fmt.Sprint(d)+" sets apart carry the same write identity|"+bad, witness)
+			return
+		}
+	}
+	run.Violation("chunked|interleave|two sets of one process carry the same write identity (their chunks cannot be told apart); no torn read constructed", w)
 }
 
 func c05Loss(run *evid.Run) {
@@ -293,6 +352,9 @@ type c05Program struct {
 	// PreSameConn: the pre-existing value was written through writer A's own connection (a
 	// client overwriting its own key) instead of a connection that is gone
 	PreSameConn bool `json:",omitempty"`
+	// Fillers: this many unrelated sets (another connection, other keys) happen between writer A
+	// taking up its work and writer B starting
+	Fillers int `json:",omitempty"`
 }
 
 func c05Interleave(run *evid.Run) {
@@ -469,10 +531,28 @@ func c05RunSchedule(prog c05Program, ch *sched.Chooser) (string, map[string]inte
 	}
 	nthreads := 3
 	ctl := sched.NewController(nthreads, ch)
+	fillersDone := make(chan struct{})
+	var fillOnce sync.Once
+	var fillerH chunked.Handler
+	if prog.Fillers > 0 {
+		fillerH = chunked.NewHandler(st.Pipe()) // its connection is not scheduled
+	} else {
+		close(fillersDone)
+	}
 	st.SetGate(func(conn int, r *fakemc.Req) {
 		t, ok := connThread[conn]
 		if !ok {
 			return
+		}
+		if t == 0 && prog.Fillers > 0 {
+			// writer A has taken up its set (its first backend request is here): the unrelated
+			// sets happen now, writer B starts after them
+			fillOnce.Do(func() {
+				for i := 0; i < prog.Fillers; i++ {
+					handlerExec(fillerH, wire.Cmd{Op: "set", Key: fmt.Sprintf("fill%d", i%7), Value: []byte("f")}, 0)
+				}
+				close(fillersDone)
+			})
 		}
 		ctl.Yield(t, fmt.Sprintf("op%02x %s", r.Op, r.Key), nil)
 	})
@@ -492,6 +572,7 @@ func c05RunSchedule(prog c05Program, ch *sched.Chooser) (string, map[string]inte
 	go func() {
 		defer wg.Done()
 		if prog.NB >= 0 {
+			<-fillersDone
 			setRes[1] = handlerExec(hs[1], wire.Cmd{Op: "set", Key: key, Value: vb.Value, Flags: vb.Flags}, 0)
 		}
 		ctl.Done(1)
@@ -521,6 +602,9 @@ func c05RunSchedule(prog c05Program, ch *sched.Chooser) (string, map[string]inte
 	hf.Close()
 	for _, h := range hs {
 		h.Close()
+	}
+	if prog.Fillers > 0 {
+		fillerH.Close()
 	}
 	judge := func(name string, r wire.Result) string {
 		switch {
